@@ -35,7 +35,7 @@ int main(int argc, char** argv) {
     R.rule = "one evaluation = one trajectory of the real Fokker-Planck (+ rotation) chain, invariants checked at every step; distinct = FNV of case + RMS series; trivial = none";
     R.sample_every = 100;
     const bool T = R.thorough();
-    std::vector<unsigned> ns = T ? std::vector<unsigned>{32, 48, 64} : std::vector<unsigned>{32, 48};
+    std::vector<unsigned> ns = T ? std::vector<unsigned>{32, 33, 48, 64} : std::vector<unsigned>{32, 33, 48};
     std::vector<unsigned> stepss = T ? std::vector<unsigned>{50, 100} : std::vector<unsigned>{50, 100};
     std::vector<double> Tds = T ? std::vector<double>{0.5, 1, 2, 4} : std::vector<double>{1, 2};
     std::vector<double> zooms = T ? std::vector<double>{0.5, 0.8, 1, 1.3, 1.6} : std::vector<double>{0.6, 1, 1.4};
